@@ -1,13 +1,9 @@
 (* NoStrandProofs.v — the "never stranded" / "resume" invariant of NodeFlow.v (C03, C04):
-   NS: every node with a held message is limited by its response counter or is registered as a waiter
-   of a stalled ancestor-or-self (hence blocked).
-   * NS is kept by every event as long as no outstanding request has reached the expiry age (CT);
-   * the timer event FExpire establishes NS and CT from any state whose outstanding lists are in
-     creation order (AS, an invariant of every history with a monotone clock);
-   hence NS and CT hold at every point of a history at which the timer has fired since the last clock
-   change (timer_settled), and there the counter equals the sum of the live requests. *)
+   in histories in which no outstanding request expires (the clock does not move), after every event
+   every node with a held message is limited by its response budget or is registered as a waiter of a
+   stalled ancestor-or-self (hence blocked). *)
 From Coq Require Import List NArith Bool Arith Lia.
-From LB Require Import Tables Framing NodeFlow NodeFlowProofs DispatchProofs BudgetSpec BudgetProofs.
+From LB Require Import Tables Framing NodeFlow NodeFlowProofs.
 Import ListNotations.
 Local Open Scope N_scope.
 
@@ -241,219 +237,6 @@ Proof.
   destruct (try_queued_loop _ t a now []) as [t1 ms]. exact H1.
 Qed.
 
-Definition no_clock (e : fev) : bool := match e with FTime _ => false | _ => true end.
-
-(* ---- predicates on the outstanding list that every table operation preserves: closed under dropping
-        the head and under appending a request created now ---- *)
-Section RespClosed.
-Variable P : N -> list (N * N) -> Prop.
-Hypothesis Pnil : forall now, P now [].
-Hypothesis Ptail : forall now e q, P now (e :: q) -> P now q.
-Hypothesis Padd : forall now q ty, P now q -> P now (q ++ [(ty, now)]).
-
-Definition PT (t : table) (now : N) : Prop := forall b, P now (n_resp (get t b)).
-
-Lemma P_transmitted now es : forall q, P now q -> P now (q ++ transmitted now es).
-Proof.
-  unfold transmitted. induction es as [|e r IH]; intros q H; cbn [filter map]; [rewrite app_nil_r; exact H|].
-  destruct (0 <? resp_size (fst e)); [|apply IH; exact H]. cbn [map].
-  replace (q ++ (fst e, now) :: map (fun e0 : N * list N => (fst e0, now)) (filter (fun e0 : N * list N => 0 <? resp_size (fst e0)) r))
-    with ((q ++ [(fst e, now)]) ++ map (fun e0 : N * list N => (fst e0, now)) (filter (fun e0 : N * list N => 0 <? resp_size (fst e0)) r))
-    by (rewrite <- app_assoc; reflexivity).
-  apply IH. apply Padd. exact H.
-Qed.
-
-Lemma P_pop v now : P now (n_resp v) -> P now (n_resp (pop_resp v)).
-Proof.
-  intros H. unfold pop_resp. destruct (n_resp v) as [|[ty c] rest] eqn:E; [rewrite E; exact H|].
-  cbn [with_flow n_resp]. eapply Ptail. exact H.
-Qed.
-
-Lemma P_upd_loop fuel : forall i v rty now, P now (n_resp v) -> P now (n_resp (fst (upd_loop fuel i v rty now))).
-Proof.
-  induction fuel as [|f IH]; intros i v rty now H; cbn [upd_loop]; [exact H|].
-  destruct (n_resp v) as [|[ty c] rest] eqn:E; [cbn [fst]; rewrite E; exact H|].
-  assert (Hp : P now (n_resp (pop_resp v))) by (apply P_pop; rewrite E; exact H).
-  assert (Hv : P now (n_resp v)) by (rewrite E; exact H).
-  destruct (i <=? info_cnt ty); [|exact Hv].
-  destruct (info_at ty i =? rty); [exact Hp|].
-  destruct (expiry_secs <=? now - c).
-  - destruct rest; [exact Hp|]. apply IH. exact Hp.
-  - apply IH. exact Hv.
-Qed.
-
-Lemma P_reap_q q : forall u now, P now q -> P now (fst (reap_q q u now)).
-Proof.
-  induction q as [|[ty c] rest IH]; intros u now H; cbn [reap_q]; [exact H|].
-  destruct (expiry_secs <=? now - c); [|exact H]. apply IH. eapply Ptail. exact H.
-Qed.
-
-Lemma P_reap v now : P now (n_resp v) -> P now (n_resp (reap v now)).
-Proof.
-  intros H. unfold reap. pose proof (P_reap_q (n_resp v) (n_used v) now H) as H1.
-  destruct (reap_q (n_resp v) (n_used v) now) as [q u]. exact H1.
-Qed.
-
-Lemma PT_same t t' now : (forall b, n_resp (get t' b) = n_resp (get t b)) -> PT t now -> PT t' now.
-Proof. intros E H b. rewrite E. apply H. Qed.
-
-Lemma PT_store t a v now : PT t now -> P now (n_resp v) -> PT (store t a v) now.
-Proof.
-  intros H Hv b. destruct (addr_eqb_spec a b) as [->|Hn].
-  - rewrite get_store_same. exact Hv.
-  - rewrite get_store_other by exact Hn. apply H.
-Qed.
-
-Lemma PT_try_send t a ty m now : PT t now -> PT (fst (try_send t a ty m now)) now.
-Proof.
-  intros H. pose proof (try_send_resp t a ty m now) as Hs. destruct (try_send t a ty m now) as [t' ok]. cbn [fst].
-  intros b. rewrite Hs. destruct (ok && addr_eqb b a); [apply P_transmitted|rewrite app_nil_r]; apply H.
-Qed.
-
-Lemma PT_try_queued t a now : PT t now -> PT (fst (try_queued t a now)) now.
-Proof.
-  intros H. pose proof (try_queued_resp t a now) as Hq. destruct (try_queued t a now) as [t' gs]. cbn [fst].
-  destruct Hq as [_ Hq]. intros b. rewrite Hq. apply P_transmitted. apply H.
-Qed.
-
-Lemma PT_on_update t a rty now : PT t now -> PT (fst (on_update t a rty now)) now.
-Proof.
-  intros H. unfold on_update. destruct (lookup t a) as [v|] eqn:El; [|exact H].
-  assert (Hv : P now (n_resp v)) by (rewrite <- (lookup_get t a v El); apply H).
-  destruct (n_resp v) eqn:Er; [exact H|]. rewrite <- Er in Hv.
-  pose proof (P_upd_loop 8 2 v rty now Hv) as Hu. destruct (upd_loop 8 2 v rty now) as [v1 matched]. cbn [fst] in Hu.
-  destruct matched; [apply PT_try_queued|cbn [fst]]; apply PT_store; assumption.
-Qed.
-
-Lemma PT_on_stall t a st now : PT t now -> PT (fst (on_stall t a st now)) now.
-Proof.
-  intros H. pose proof (on_stall_resp t a st now) as Hs. destruct (on_stall t a st now) as [t' gs]. cbn [fst].
-  intros b. rewrite Hs. apply P_transmitted. apply H.
-Qed.
-
-Lemma PT_expire_loop ks : forall t now acc, PT t now -> PT (fst (expire_loop ks t now acc)) now.
-Proof.
-  induction ks as [|a r IH]; intros t now acc H; cbn [expire_loop]; [exact H|].
-  assert (H1 : PT (store t a (reap (get t a) now)) now) by (apply PT_store; [exact H|apply P_reap, H]).
-  destruct (head_fits (reap (get t a) now)); [|apply IH; exact H1].
-  pose proof (PT_try_queued _ a now H1) as H2. destruct (try_queued (store t a (reap (get t a) now)) a now) as [t2 o].
-  apply IH. exact H2.
-Qed.
-
-Lemma alloc_sseq_resp t a b : n_resp (get (fst (alloc_sseq t a)) b) = n_resp (get t b).
-Proof.
-  unfold alloc_sseq. cbn [fst]. destruct (addr_eqb_spec a b) as [<-|Hn].
-  - rewrite get_store_same, get_ensure. reflexivity.
-  - rewrite get_store_other by exact Hn. rewrite get_ensure. reflexivity.
-Qed.
-
-(* every event except a clock change *)
-Lemma PT_step t so now e : (forall n, e <> FTime n) -> PT t now ->
-  let '(t1, _, _, _, _) := tab_step t so now e in PT t1 now.
-Proof.
-  intros Hnt H. destruct e as [a3 ty data|a rty last|n| |c|b| |]; cbn [tab_step]; try exact H.
-  - unfold submit_tab.
-    assert (H1 : PT (fst (if so then alloc_sseq t (canon a3) else (t, 0))) now).
-    { destruct so; [|exact H]. eapply PT_same; [intros b; apply alloc_sseq_resp|exact H]. }
-    destruct (if so then alloc_sseq t (canon a3) else (t, 0)) as [t1 sq]. cbn [fst] in H1.
-    destruct (encode_msg a3 sq ty data) as [m|]; [|exact H].
-    pose proof (PT_try_send t1 (canon a3) ty m now H1) as H2. destruct (try_send t1 (canon a3) ty m now) as [t2 ok]. exact H2.
-  - unfold uplink_tab. pose proof (PT_on_update t a rty now H) as H1. destruct (on_update t a rty now) as [t1 g1]. cbn [fst] in H1.
-    destruct (rty =? MSG_STALL); [|exact H1].
-    pose proof (PT_on_stall t1 a last now H1) as H2. destruct (on_stall t1 a last now) as [t2 g2]. exact H2.
-  - intros b. unfold get; cbn. apply Pnil.
-  - unfold on_expire. pose proof (PT_expire_loop (map fst t) t now [] H) as H1.
-    destruct (expire_loop (map fst t) t now []) as [t1 gs]. exact H1.
-Qed.
-End RespClosed.
-
-(* instance 1: no outstanding request has reached the expiry age *)
-Lemma young_tail now (e : N * N) q : (forall x, In x (e :: q) -> young now (snd x)) -> forall x, In x q -> young now (snd x).
-Proof. intros H x Hx. apply H. right. exact Hx. Qed.
-Lemma young_add now q (ty : N) : (forall x, In x q -> young now (snd x)) -> forall x, In x (q ++ [(ty, now)]) -> young now (snd x).
-Proof. intros H x Hx. apply in_app_or in Hx as [Hx|[<-|[]]]; [apply H; exact Hx|apply young_now]. Qed.
-
-Lemma CT_PT t now : CT t now <-> PT (fun now q => forall x, In x q -> young now (snd x)) t now.
-Proof. unfold CT, PT. split; intros H a; apply H. Qed.
-
-Lemma CT_step t so now e : (forall n, e <> FTime n) -> CT t now ->
-  let '(t1, _, _, _, _) := tab_step t so now e in CT t1 now.
-Proof.
-  intros Hnt H. apply CT_PT in H.
-  pose proof (PT_step (fun now q => forall x, In x q -> young now (snd x)) (fun _ _ F => match F with end) young_tail young_add t so now e Hnt H) as H1.
-  destruct (tab_step t so now e) as [[[[t1 s1] n1] g1] o1]. apply CT_PT. exact H1.
-Qed.
-
-(* instance 2: the outstanding requests are in creation order, none created after now *)
-Fixpoint asc (lo : N) (q : list (N * N)) (now : N) : Prop :=
-  match q with
-  | [] => lo <= now
-  | e :: r => lo <= snd e /\ asc (snd e) r now
-  end.
-
-Lemma asc_weaken lo lo' q now : lo' <= lo -> asc lo q now -> asc lo' q now.
-Proof. destruct q as [|e r]; cbn [asc]; [lia|]. intros H [A B]. split; [lia|exact B]. Qed.
-
-Lemma asc_bounds q : forall lo now, asc lo q now -> lo <= now /\ forall x, In x q -> lo <= snd x /\ snd x <= now.
-Proof.
-  induction q as [|e r IH]; intros lo now H; cbn [asc] in H; [split; [exact H|intros x []]|].
-  destruct H as [A B]. destruct (IH _ _ B) as [C D]. split; [lia|].
-  intros x [<-|Hx]; [lia|]. destruct (D x Hx). lia.
-Qed.
-
-Lemma asc_add q : forall lo now (ty : N), asc lo q now -> asc lo (q ++ [(ty, now)]) now.
-Proof.
-  induction q as [|e r IH]; intros lo now ty H; cbn [asc app] in *.
-  - cbn [snd]. split; [exact H|lia].
-  - destruct H as [A B]. split; [exact A|apply IH; exact B].
-Qed.
-
-Lemma asc_later lo q : forall now n, now <= n -> asc lo q now -> asc lo q n.
-Proof.
-  revert lo. induction q as [|e r IH]; intros lo now n Hn H; cbn [asc] in *; [lia|].
-  destruct H as [A B]. split; [exact A|eapply IH; eauto].
-Qed.
-
-Definition AS (t : table) (now : N) : Prop := forall a, asc 0 (n_resp (get t a)) now.
-Lemma AS_PT t now : AS t now <-> PT (fun now q => asc 0 q now) t now.
-Proof. unfold AS, PT. split; intros H a; apply H. Qed.
-
-Lemma AS_nil now : AS [] now.
-Proof. intros a. unfold get; cbn. apply N.le_0_l. Qed.
-
-Lemma AS_step t so now e : clock_mono_step now e = true -> AS t now ->
-  let '(t1, _, now1, _, _) := tab_step t so now e in AS t1 now1.
-Proof.
-  intros Hm H. destruct (no_clock e) eqn:E.
-  - assert (Hnt : forall n, e <> FTime n) by (intros n ->; discriminate).
-    apply AS_PT in H.
-    pose proof (PT_step (fun now q => asc 0 q now) (fun now => N.le_0_l now)
-                  (fun now e q (F : asc 0 (e :: q) now) => asc_weaken (snd e) 0 q now (N.le_0_l _) (proj2 F))
-                  (fun now q ty F => asc_add q 0 now ty F) t so now e Hnt H) as H1.
-    pose proof (tab_step_now t so now e) as Hn.
-    destruct (tab_step t so now e) as [[[[t1 s1] n1] g1] o1]. subst n1.
-    destruct e; try discriminate; apply AS_PT; exact H1.
-  - destruct e; try discriminate. cbn [tab_step]. cbn [clock_mono_step] in Hm. apply N.leb_le in Hm.
-    intros a. eapply asc_later; [exact Hm|apply H].
-Qed.
-
-(* creation order makes "the head is young" mean "all are young": what the timer leaves behind *)
-Lemma reap_q_young q : forall u now, asc 0 q now -> forall x, In x (fst (reap_q q u now)) -> young now (snd x).
-Proof.
-  induction q as [|[ty c] rest IH]; intros u now H x Hx; cbn [reap_q] in Hx; [destruct Hx|].
-  destruct (expiry_secs <=? now - c) eqn:Ex.
-  - cbn [asc snd] in H. eapply IH; [|exact Hx]. eapply asc_weaken; [apply N.le_0_l|exact (proj2 H)].
-  - apply N.leb_gt in Ex. cbn [fst] in Hx. cbn [asc snd] in H. destruct H as [_ H].
-    unfold young. destruct Hx as [<-|Hx]; [exact Ex|].
-    destruct (asc_bounds _ _ _ H) as [_ Hb]. destruct (Hb x Hx). lia.
-Qed.
-
-Lemma reap_young v now : asc 0 (n_resp v) now -> RO now (reap v now).
-Proof.
-  intros H. unfold RO, reap. pose proof (reap_q_young (n_resp v) (n_used v) now H) as H1.
-  destruct (reap_q (n_resp v) (n_used v) now) as [q u]. exact H1.
-Qed.
-
 (* ---- on_update without expiry ---- *)
 Lemma on_update_ns t a rty now : NS t -> CT t now ->
   NS (fst (on_update t a rty now)) /\ CT (fst (on_update t a rty now)) now.
@@ -543,83 +326,6 @@ Proof.
     + apply CT_store'; [exact Hct1|]. eapply RO_resp_eq; [|apply CT_RO; exact Hct1]. reflexivity.
 Qed.
 
-(* ---- the timer establishes NS whatever the state before (in particular after the receiver dropped
-        expired requests without retrying the held queue) ---- *)
-Lemma head_fits_false_hbb t a : head_fits (get t a) = false -> NSnode t a.
-Proof.
-  unfold head_fits. intros Hf Hh. destruct (n_held (get t a)) as [|[ty m] rest] eqn:E; [congruence|].
-  apply N.leb_gt in Hf. left. exists ty, m, rest. auto.
-Qed.
-
-Lemma expire_loop_ns ks : forall t now acc,
-  (forall b, NSnode t b \/ In b ks) -> NS (fst (expire_loop ks t now acc)).
-Proof.
-  induction ks as [|a r IH]; intros t now acc Hinv; cbn [expire_loop].
-  - intros b. destruct (Hinv b) as [H|[]]. exact H.
-  - set (v := reap (get t a) now). set (t1 := store t a v).
-    destruct (reap_ctl (get t a) now) as ((Rs & _) & Rh & Rw). fold v in Rs, Rh, Rw.
-    assert (Hm1 : wmono t t1) by (apply wmono_store; [exact Rs|rewrite Rw; apply incl_refl]).
-    assert (Hoth : forall b, b <> a -> NSnode t b -> NSnode t1 b).
-    { intros b Hb. apply NSnode_mono; [exact Hm1|]. unfold t1. rewrite get_store_other by congruence. apply same_flow_refl. }
-    destruct (head_fits v) eqn:Ef.
-    + pose proof (try_queued_ns t1 a now) as Hq. destruct (try_queued t1 a now) as [t2 o]. cbn [fst] in Hq.
-      destruct Hq as (Hm & Hf & Hn). apply IH. intros b.
-      destruct (addr_eqb_spec b a) as [->|Hb]; [left; exact Hn|].
-      destruct (Hinv b) as [H|[H|H]]; [left|congruence|right; exact H].
-      eapply NSnode_mono; [exact Hm|apply Hf; exact Hb|apply Hoth; assumption].
-    + apply IH. intros b.
-      destruct (addr_eqb_spec b a) as [->|Hb].
-      * left. apply head_fits_false_hbb. unfold t1. rewrite get_store_same. exact Ef.
-      * destruct (Hinv b) as [H|[H|H]]; [left; apply Hoth; assumption|congruence|right; exact H].
-Qed.
-
-Lemma lookup_keys t a v : lookup t a = Some v -> In a (map fst t).
-Proof.
-  induction t as [|[k w] r IH]; cbn [lookup map fst]; [discriminate|].
-  destruct (addr_eqb_spec k a) as [->|Hn]; [left; reflexivity|]. intros E. right. apply IH. exact E.
-Qed.
-
-Lemma on_expire_ns t now : NS (fst (on_expire t now)).
-Proof.
-  unfold on_expire. apply expire_loop_ns. intros b. destruct (lookup t b) as [v|] eqn:E.
-  - right. eapply lookup_keys. exact E.
-  - left. intros Hh. unfold get in Hh. rewrite E in Hh. cbn in Hh. congruence.
-Qed.
-
-(* ... and, the lists being in creation order, leaves no request of expiry age behind *)
-Lemma expire_loop_ct ks : forall t now acc, AS t now ->
-  (forall b, RO now (get t b) \/ In b ks) -> CT (fst (expire_loop ks t now acc)) now.
-Proof.
-  induction ks as [|a r IH]; intros t now acc Has Hinv; cbn [expire_loop].
-  - apply CT_RO. intros b. destruct (Hinv b) as [H|[]]. exact H.
-  - set (v := reap (get t a) now). set (t1 := store t a v).
-    assert (Hv : RO now v) by (apply reap_young, Has).
-    assert (Has1 : AS t1 now).
-    { apply AS_PT. apply PT_store; [apply AS_PT; exact Has|]. unfold v.
-      apply (P_reap (fun now q => asc 0 q now)); [|apply Has].
-      intros now' e q F. eapply asc_weaken; [apply N.le_0_l|exact (proj2 F)]. }
-    assert (H1 : forall b, RO now (get t1 b) \/ In b r).
-    { intros b. unfold t1. destruct (addr_eqb_spec a b) as [<-|Hn].
-      - left. rewrite get_store_same. exact Hv.
-      - rewrite get_store_other by exact Hn. destruct (Hinv b) as [H|[H|H]]; [left; exact H|congruence|right; exact H]. }
-    destruct (head_fits v); [|apply IH; assumption].
-    pose proof (try_queued_resp t1 a now) as Hq.
-    assert (Has2 : AS (fst (try_queued t1 a now)) now).
-    { apply AS_PT. apply (PT_try_queued (fun now q => asc 0 q now)); [|apply AS_PT; exact Has1].
-      intros now' q ty F. apply asc_add. exact F. }
-    destruct (try_queued t1 a now) as [t2 o]. cbn [fst] in Has2. destruct Hq as [_ Hq].
-    apply IH; [exact Has2|]. intros b. destruct (H1 b) as [H|H]; [left|right; exact H].
-    unfold RO. rewrite Hq.
-    apply (P_transmitted (fun now q => forall x, In x q -> young now (snd x)) young_add). exact H.
-Qed.
-
-Lemma on_expire_ct t now : AS t now -> CT (fst (on_expire t now)) now.
-Proof.
-  intros Has. unfold on_expire. apply expire_loop_ct; [exact Has|]. intros b. destruct (lookup t b) as [v|] eqn:E.
-  - right. eapply lookup_keys. exact E.
-  - left. unfold RO, get. rewrite E. intros e [].
-Qed.
-
 (* ---- steps and histories with a constant clock ---- *)
 Lemma alloc_sseq_ns t a now : NS t -> CT t now -> NS (fst (alloc_sseq t a)) /\ CT (fst (alloc_sseq t a)) now.
 Proof.
@@ -636,10 +342,12 @@ Proof.
   - intros b e. destruct (Hsame b) as ((_ & B & _) & _). rewrite B. apply Hct.
 Qed.
 
+Definition no_clock (e : fev) : bool := match e with FTime _ => false | _ => true end.
+
 Lemma tab_step_ns t so now e : no_clock e = true -> NS t -> CT t now ->
   let '(t1, _, now1, _, _) := tab_step t so now e in NS t1 /\ CT t1 now1 /\ now1 = now.
 Proof.
-  intros Hnc Hns Hct. destruct e as [a3 ty data|a rty last|n| |c|b| |]; cbn [tab_step]; try discriminate; try (split; [exact Hns|split; [exact Hct|reflexivity]]).
+  intros Hnc Hns Hct. destruct e as [a3 ty data|a rty last|n| |c|b|]; cbn [tab_step]; try discriminate; try (split; [exact Hns|split; [exact Hct|reflexivity]]).
   - unfold submit_tab.
     assert (H1 : NS (fst (if so then alloc_sseq t (canon a3) else (t, 0))) /\ CT (fst (if so then alloc_sseq t (canon a3) else (t, 0))) now).
     { destruct so; [apply alloc_sseq_ns; assumption|split; assumption]. }
@@ -653,9 +361,6 @@ Proof.
     + pose proof (on_stall_ns t1 a last now Hns1 Hct1) as [Hns2 Hct2]. destruct (on_stall t1 a last now) as [t2 g2]. cbn [fst] in *. auto.
     + auto.
   - split; [|split; [apply CT_nil|reflexivity]]. intros a Hh. unfold get in Hh; cbn in Hh. congruence.
-  - pose proof (on_expire_ns t now) as H1.
-    pose proof (CT_step t so now FExpire ltac:(discriminate) Hct) as H2. cbn [tab_step] in H2.
-    destruct (on_expire t now) as [t1 gs]. cbn [fst] in H1. auto.
 Qed.
 
 Lemma tab_run_ns es : forall t so now, forallb no_clock es = true -> NS t -> CT t now ->
@@ -702,7 +407,7 @@ Proof.
   intros Hf Hns Hct. destruct (no_clock e) eqn:E.
   - pose proof (tab_step_ns t so now e E Hns Hct) as H.
     destruct (tab_step t so now e) as [[[[t1 s1] n1] g1] o1]. destruct H as (A & B & ->). split; assumption.
-  - destruct e as [a3 ty data|a rty last|n| |c|b| |]; try discriminate. cbn [tab_step]. split; [exact Hns|apply Hf; reflexivity].
+  - destruct e as [a3 ty data|a rty last|n| |c|b|]; try discriminate. cbn [tab_step]. split; [exact Hns|apply Hf; reflexivity].
 Qed.
 
 Lemma tab_run_ns_young es : forall t so now, young_run t so now es = true -> NS t -> CT t now ->
@@ -749,135 +454,4 @@ Proof.
   intros Hy. pose proof (tab_run_ns_young es [] so now0 Hy NS_nil (CT_nil now0)) as H.
   destruct (tab_run [] so now0 es) as [[[[t s] n] g] o]. intros a Hh Hu.
   destruct (H a Hh) as [Hb|Hr]; [exact Hb|]. exfalso. exact (registered_blocked t a Hr Hu).
-Qed.
-
-(* ---- histories with the timer ----
-   timer_settled: the heartbeat thread's expiry pass (FExpire) has run since the last clock change.
-   In the running library the pass follows a change of time(NULL) within one heartbeat period (0.1 s);
-   other events may come in between (the receiver may even drop expired requests itself without
-   retrying the held queue): the pass repairs that. *)
-Definition settle_step (f : bool) (e : fev) : bool :=
-  match e with FTime _ => false | FExpire => true | FReset => true | _ => f end.
-Fixpoint settled_from (f : bool) (es : list fev) : bool :=
-  match es with [] => f | e :: r => settled_from (settle_step f e) r end.
-Definition timer_settled (es : list fev) : bool := settled_from true es.
-
-Definition TI (f : bool) (t : table) (now : N) : Prop :=
-  tab_ok t /\ AS t now /\ (f = true -> NS t /\ CT t now).
-
-Lemma tab_step_ti f t so now e : clock_mono_step now e = true -> TI f t now ->
-  let '(t1, _, now1, _, _) := tab_step t so now e in TI (settle_step f e) t1 now1.
-Proof.
-  intros Hm (Hok & Has & Hf).
-  pose proof (tab_step_ok t so now e Hok) as H1. pose proof (AS_step t so now e Hm Has) as H2.
-  assert (H3 : let '(t1, _, now1, _, _) := tab_step t so now e in settle_step f e = true -> NS t1 /\ CT t1 now1).
-  { assert (Hgen : no_clock e = true -> settle_step f e = f ->
-                   let '(t1, _, now1, _, _) := tab_step t so now e in settle_step f e = true -> NS t1 /\ CT t1 now1).
-    { intros Hnc Hse. rewrite Hse. destruct f.
-      - destruct (Hf eq_refl) as [Hns Hct]. pose proof (tab_step_ns t so now e Hnc Hns Hct) as H.
-        destruct (tab_step t so now e) as [[[[t1 s1] n1] g1] o1]. destruct H as (A & B & ->). intros _. split; assumption.
-      - destruct (tab_step t so now e) as [[[[t1 s1] n1] g1] o1]. discriminate. }
-    destruct e as [a3 ty data|a rty last|n| |c|b| |]; try (apply Hgen; reflexivity).
-    - cbn [tab_step settle_step]. discriminate.
-    - cbn [tab_step settle_step]. intros _. split; [apply NS_nil|apply CT_nil].
-    - cbn [tab_step settle_step]. pose proof (on_expire_ns t now) as A. pose proof (on_expire_ct t now Has) as B.
-      destruct (on_expire t now) as [t1 gs]. intros _. split; assumption. }
-  destruct (tab_step t so now e) as [[[[t1 s1] n1] g1] o1]. split; [exact H1|]. split; [exact H2|exact H3].
-Qed.
-
-Lemma tab_run_ti es : forall f t so now, clock_mono now es = true -> TI f t now ->
-  let '(t1, _, now1, _, _) := tab_run t so now es in TI (settled_from f es) t1 now1.
-Proof.
-  induction es as [|e r IH]; intros f t so now Hc Hi; cbn [tab_run settled_from]; [exact Hi|].
-  cbn [clock_mono] in Hc. apply andb_true_iff in Hc as [Hc1 Hc2].
-  pose proof (tab_step_ti f t so now e Hc1 Hi) as H1. pose proof (tab_step_now t so now e) as Hn.
-  destruct (tab_step t so now e) as [[[[t1 s1] n1] g1] o1]. subst n1.
-  specialize (IH (settle_step f e) t1 s1 _ Hc2 H1).
-  destruct (tab_run t1 s1 _ r) as [[[[t2 s2] n2] g2] o2]. exact IH.
-Qed.
-
-Lemma TI_init now : TI true [] now.
-Proof. split; [apply tab_ok_nil|]. split; [apply AS_nil|]. intros _. split; [apply NS_nil|apply CT_nil]. Qed.
-
-Lemma live_sum_young now v : RO now v -> live_sum now v = sumsz (n_resp v).
-Proof.
-  unfold RO, live_sum. induction (n_resp v) as [|e r IH]; intros H; [reflexivity|]. cbn [filter].
-  assert (E : (now - snd e <? expiry_secs) = true) by (apply N.ltb_lt; apply (H e); left; reflexivity).
-  rewrite E. cbn [sumsz]. f_equal. apply IH. intros x Hx. apply H. right. exact Hx.
-Qed.
-
-(* The never-stranded clause of C03 in the property's words: after every history with a monotone clock,
-   at every point at which the timer has fired since the last clock change, a node that holds a message and
-   has no stalled ancestor-or-self has no room for the oldest held message in its budget of LIVE requests
-   (those not answered and younger than the expiry time). *)
-Theorem no_strand_timer es so now0 : clock_mono now0 es = true -> timer_settled es = true ->
-  let '(t, _, now, _, _) := tab_run [] so now0 es in
-  forall a, n_held (get t a) <> [] -> unblocked t a ->
-    exists ty m rest, n_held (get t a) = (ty, m) :: rest /\ response_limit < live_sum now (get t a) + resp_size ty.
-Proof.
-  intros Hc Hs. pose proof (tab_run_ti es true [] so now0 Hc (TI_init now0)) as H. unfold timer_settled in Hs. rewrite Hs in H.
-  destruct (tab_run [] so now0 es) as [[[[t s] n] g] o]. destruct H as (Hok & _ & Hf). destruct (Hf eq_refl) as [Hns Hct].
-  intros a Hh Hu. destruct (Hns a Hh) as [(ty & m & rest & Eh & Hb)|Hr]; [|exfalso; exact (registered_blocked t a Hr Hu)].
-  exists ty, m, rest. split; [exact Eh|]. rewrite live_sum_young by (apply CT_RO; exact Hct).
-  destruct (Hok a) as [<- _]. exact Hb.
-Qed.
-
-(* the same in executable form: no node is stranded *)
-Theorem no_strand_timer_b es so now0 : clock_mono now0 es = true -> timer_settled es = true ->
-  let '(t, _, now, _, _) := tab_run [] so now0 es in forall a, strandedb t now a = false.
-Proof.
-  intros Hc Hs. pose proof (no_strand_timer es so now0 Hc Hs) as H.
-  destruct (tab_run [] so now0 es) as [[[[t s] n] g] o]. intros a. unfold strandedb.
-  destruct (n_held (get t a)) as [|[ty m] rest] eqn:Eh; [reflexivity|].
-  destruct (forallb (fun p => negb (n_stall (get t p))) (ancestors a)) eqn:Ef; [|reflexivity]. cbn [andb].
-  assert (Hu : unblocked t a).
-  { intros p Hp. rewrite forallb_forall in Ef. specialize (Ef p Hp). apply negb_true_iff in Ef. exact Ef. }
-  destruct (H a) as (ty' & m' & rest' & E' & Hb); [rewrite Eh; discriminate|exact Hu|].
-  rewrite Eh in E'. injection E' as <- <- <-. apply N.leb_gt. exact Hb.
-Qed.
-
-(* the invariant behind it, for C04: waiters of stalled nodes *)
-Theorem waiters_timer es so now0 : clock_mono now0 es = true -> timer_settled es = true ->
-  let '(t, _, _, _, _) := tab_run [] so now0 es in
-  forall a, n_held (get t a) <> [] -> head_blocked_by_budget t a \/ registered t a.
-Proof.
-  intros Hc Hs. pose proof (tab_run_ti es true [] so now0 Hc (TI_init now0)) as H. unfold timer_settled in Hs. rewrite Hs in H.
-  destruct (tab_run [] so now0 es) as [[[[t s] n] g] o]. destruct H as (_ & _ & Hf). destruct (Hf eq_refl) as [Hns _]. exact Hns.
-Qed.
-
-Theorem resume_timer es so now0 : clock_mono now0 es = true -> timer_settled es = true ->
-  let '(t, _, _, _, _) := tab_run [] so now0 es in
-  forall a, n_held (get t a) <> [] -> unblocked t a -> head_blocked_by_budget t a.
-Proof.
-  intros Hc Hs. pose proof (waiters_timer es so now0 Hc Hs) as H.
-  destruct (tab_run [] so now0 es) as [[[[t s] n] g] o]. intros a Hh Hu.
-  destruct (H a Hh) as [Hb|Hr]; [exact Hb|exfalso; exact (registered_blocked t a Hr Hu)].
-Qed.
-
-(* the special case checked against the implementation: the timer fires immediately after every clock
-   change (harness: `time n` = FTime n; FExpire); every prefix not ending in a clock change is settled *)
-Fixpoint timer_follows (es : list fev) : bool :=
-  match es with
-  | [] => true
-  | FTime _ :: r => match r with FExpire :: _ => timer_follows r | _ => false end
-  | _ :: r => timer_follows r
-  end.
-
-Lemma timer_follows_settled es : forall f, timer_follows es = true ->
-  (f = true \/ exists r, es = FExpire :: r) -> settled_from f es = true.
-Proof.
-  induction es as [|e r IH]; intros f Ht Hf; cbn [settled_from].
-  - destruct Hf as [->|(r & E)]; [reflexivity|discriminate].
-  - destruct e as [a3 ty data|a rty last|n| |c|b| |]; cbn [settle_step timer_follows] in *;
-      try (destruct Hf as [->|(r0 & E)]; [apply IH; [exact Ht|left; reflexivity]|discriminate]).
-    + destruct r as [|e' r']; [discriminate|]. destruct e'; try discriminate. apply IH; [exact Ht|]. right. eexists. reflexivity.
-    + apply IH; [exact Ht|left; reflexivity].
-Qed.
-
-Theorem no_strand_timer_follows es so now0 : clock_mono now0 es = true -> timer_follows es = true ->
-  let '(t, _, now, _, _) := tab_run [] so now0 es in
-  forall a, n_held (get t a) <> [] -> unblocked t a ->
-    exists ty m rest, n_held (get t a) = (ty, m) :: rest /\ response_limit < live_sum now (get t a) + resp_size ty.
-Proof.
-  intros Hc Ht. apply no_strand_timer; [exact Hc|]. apply timer_follows_settled; [exact Ht|left; reflexivity].
 Qed.
